@@ -21,8 +21,9 @@ import (
 
 // fake sequence log
 type seqLog struct {
-	seqs    []*types.BlockSequence
-	headers map[string]*types.Header
+	seqs      []*types.BlockSequence
+	headers   map[string]*types.Header
+	blockSize int // > 0: full blocks of this reported size are served (PushBlock subscriptions)
 }
 
 func (l *seqLog) add(i int, del bool) {
@@ -48,7 +49,11 @@ func (l *seqLog) GetBlockHeaderByHash(hash []byte) (*types.Header, error) {
 	return nil, types.ErrNotFound
 }
 func (l *seqLog) LoadBlockBySequence(seq int64) (*types.BlockDetail, int, error) {
-	return nil, 0, types.ErrNotFound
+	if l.blockSize == 0 || seq < 0 || seq >= int64(len(l.seqs)) {
+		return nil, 0, types.ErrNotFound
+	}
+	// a block whose reported size is blockSize (the payload itself stays small: only the size is used for batching)
+	return &types.BlockDetail{Block: &types.Block{Height: seq}}, l.blockSize, nil
 }
 func (l *seqLog) LastHeader() *types.Header { return &types.Header{} }
 func (l *seqLog) GetSequenceByHash(hash []byte) (int64, error) {
@@ -116,7 +121,17 @@ func (w *world) PostData(sub *types.PushSubscribeReq, data []byte, seq int64) er
 		w.bad = append(w.bad, "two tasks post concurrently for one subscriber")
 	}
 	var hs types.HeaderSeqs
-	if err := types.Decode(data, &hs); err != nil || len(hs.Seqs) == 0 {
+	if sub.Type == int32(blockchain.PushBlock) {
+		var bs types.BlockSeqs
+		if err := types.Decode(data, &bs); err == nil {
+			for _, b := range bs.Seqs {
+				hs.Seqs = append(hs.Seqs, &types.HeaderSeq{Num: b.Num})
+			}
+		}
+	} else if err := types.Decode(data, &hs); err != nil {
+		hs.Seqs = nil
+	}
+	if len(hs.Seqs) == 0 {
 		w.bad = append(w.bad, "undecodable or empty payload")
 		w.inflight--
 		return nil
@@ -185,6 +200,7 @@ type scenario struct {
 	growGapMs int  // virtual milliseconds between appended records (0 = all at once)
 	closer    bool // Close() by a third thread
 	expectAll bool
+	blockSize int // > 0: a PushBlock subscription over blocks of this size (batches are cut at 1 MB)
 }
 
 func main() {
@@ -200,13 +216,14 @@ func main() {
 		{name: "P2-resume+reorg", initial: 3, resume: 1, grow: []bool{false, true, false}, maxFail: 2},
 		{name: "P3-deactivate-reactivate", initial: 3, resume: 1, grow: []bool{false}, maxFail: 4, resub: 2},
 		{name: "P4-close", initial: 2, resume: 1, grow: []bool{false, false}, maxFail: 1, closer: true},
+		{name: "P6-full-blocks-batches-cut-by-size", initial: 6, resume: 1, grow: []bool{false, false}, maxFail: 1, blockSize: 400 * 1024},
 		{name: "P5-reregister-during-backoff", initial: 3, resume: 1, grow: []bool{false, false, false, false}, maxFail: 2, resub: 3, resubGap: 1, failSleep: 4, growGapMs: 700},
 	}
 	bound := r.Pick(4, 6)
 	var cur *world
 	mk := func(sc scenario) *vx.Sched {
 		body := func() {
-			w := &world{log: &seqLog{headers: map[string]*types.Header{}}, store: &kvStore{m: map[string][]byte{}}, resume: -1, maxFail: sc.maxFail}
+			w := &world{log: &seqLog{headers: map[string]*types.Header{}, blockSize: sc.blockSize}, store: &kvStore{m: map[string][]byte{}}, resume: -1, maxFail: sc.maxFail}
 			cur = w
 			for i := 0; i < sc.initial; i++ {
 				w.log.add(i, false)
@@ -217,6 +234,9 @@ func main() {
 			}
 			w.push = blockchain.VerifNewPush(w.store, w.log, w, cfg, fs)
 			w.sub = &types.PushSubscribeReq{Name: "s", URL: "http://x", Type: int32(blockchain.PushBlockHeader), Encode: "proto"}
+			if sc.blockSize > 0 {
+				w.sub.Type = int32(blockchain.PushBlock)
+			}
 			if sc.resume > 0 {
 				w.sub.LastSequence = sc.resume
 				w.sub.LastHeight = sc.resume
